@@ -199,7 +199,7 @@ func checkC02(e *core.Env) {
 	cs := stdCarriers()
 	defer cs.Close()
 
-	n := e.N(400, 3200)
+	n := e.N(1200, 9000)
 	e.Cases("status", n, func(i int, r *rand.Rand) {
 		kind := Kind(i % 4)
 		for ci, c := range cs.list {
